@@ -86,6 +86,9 @@ type Case struct {
 	FailFirst []int    `json:"fail_first,omitempty"` // sink calls that fail once (retryable) before succeeding
 	Fault     *Fault   `json:"fault,omitempty"`
 	ErrResp   []ErrAt  `json:"err_resp,omitempty"` // server error responses (announced recovery)
+	// filled in only inside a reported violation: what the failing run looked like (ignored when a case is run)
+	ObservedLog    []LogEv `json:"observed_log,omitempty"`
+	ObservedLedger string  `json:"observed_ledger,omitempty"`
 }
 
 // ErrAt: after the n-th message sent by the server an ErrorResponse arrives; IDENTIFY_SYSTEM then
@@ -158,6 +161,45 @@ func (w *world) add(e LogEv) {
 }
 
 var streamEvents bool
+
+// Scheduling-latency canary: the harness decides "nothing more will happen" from silence, and how long
+// silence must last depends on how late goroutines are scheduled on this machine right now.  A goroutine
+// sleeps 1 ms at a time and records by how much it overslept (maximum over the last second); every
+// silence window is stretched by 40 times that.
+var canaryMax int64 // nanoseconds
+
+func startCanary() {
+	go func() {
+		var window [64]int64
+		i := 0
+		for {
+			t := time.Now()
+			time.Sleep(time.Millisecond)
+			over := int64(time.Since(t)) - int64(time.Millisecond)
+			if over < 0 {
+				over = 0
+			}
+			window[i%len(window)] = over
+			i++
+			var m int64
+			for _, x := range window {
+				if x > m {
+					m = x
+				}
+			}
+			atomic.StoreInt64(&canaryMax, m)
+		}
+	}()
+}
+
+func stretched(d time.Duration) time.Duration {
+	x := d + 40*time.Duration(atomic.LoadInt64(&canaryMax))
+	if x > 4*time.Second {
+		x = 4 * time.Second
+	}
+	return x
+}
+
 var harnessCancelled int32
 
 // ---------- fake PostgreSQL connection (adaptive: streams what the walsender would) ----------
@@ -739,7 +781,8 @@ func run(c Case) result {
 		}
 	}()
 	var res result
-	deadline := time.Now().Add(6 * time.Second)
+	startCanary()
+	deadline := time.Now().Add(8 * time.Second)
 	// phase 1: run until everything that is not held has happened (or the pipeline stopped itself)
 	for time.Now().Before(deadline) {
 		select {
@@ -759,7 +802,7 @@ func run(c Case) result {
 		if allSent && lastAck() >= lastCommit && len(c.Hold) == 0 {
 			break
 		}
-		if allSent && quiet(60*time.Millisecond) {
+		if allSent && quiet(stretched(100*time.Millisecond)) {
 			break
 		}
 		time.Sleep(5 * time.Millisecond)
@@ -773,9 +816,9 @@ func run(c Case) result {
 		sort.Ints(hs)
 		for _, h := range hs {
 			close(w.hold[h])
-			time.Sleep(40 * time.Millisecond)
+			time.Sleep(stretched(40 * time.Millisecond))
 		}
-		settle := time.Now().Add(1500 * time.Millisecond)
+		settle := time.Now().Add(stretched(1500 * time.Millisecond))
 		for time.Now().Before(settle) {
 			select {
 			case <-sh.TerminateCtx.Done():
@@ -788,7 +831,7 @@ func run(c Case) result {
 			time.Sleep(5 * time.Millisecond)
 		}
 		if c.Fault == nil && !res.Terminated && lastAck() >= lastCommit {
-			time.Sleep(10 * tickMs * time.Millisecond) // let the tracker's bookkeeping settle
+			time.Sleep(stretched(10 * tickMs * time.Millisecond)) // let the tracker's bookkeeping settle
 		}
 	}
 	if c.Fault != nil && !res.Terminated {
@@ -887,8 +930,10 @@ func passes(c Case, table string) bool {
 
 func monitor(c Case, r result) []core.Violation {
 	var vs []core.Violation
+	cv := c
+	cv.ObservedLog, cv.ObservedLedger = r.Log, r.Ledger
 	add := func(p, sig, what string) {
-		vs = append(vs, core.Violation{Property: p, Signature: sig, What: what, Case: c})
+		vs = append(vs, core.Violation{Property: p, Signature: sig, What: what, Case: cv})
 	}
 	// stale completion: a sink call carrying records of delivery key k1 of transaction x completes
 	// after a BEGIN of x with a different key was forwarded by the client (finding F1's class)
@@ -960,6 +1005,51 @@ func monitor(c Case, r result) []core.Violation {
 				if (!passes(c, ch.Table) || ch.Big) && acceptCount[ch.Lsn] > 0 {
 					add("C04", "filtered-or-dropped-change-reached-the-sink", fmt.Sprintf("the change at %d (table %s, oversize %v) reached the sink", ch.Lsn, ch.Table, ch.Big))
 				}
+			}
+		}
+	}
+	if len(c.Breaks) == 0 && len(c.ErrResp) == 0 && c.Fault == nil && (c.Routing == "partition" || (c.Workers == 1 && c.Method == "none")) {
+		// C05 at the sink: records sharing a partition key (partition routing), or the whole stream (one
+		// worker, no partitioning), are accepted in the order PostgreSQL delivered them — also when workers
+		// are slow or a call is retried.  (transaction-bucket: checked per transaction, which is implied.)
+		keyOf := func(t Txn, ch Change) string {
+			switch c.Method {
+			case "tablename":
+				return ch.Table
+			case "transaction", "transaction-bucket":
+				return t.Xid
+			}
+			return ""
+		}
+		rank := map[uint64]int{}
+		key := map[uint64]string{}
+		n := 0
+		for _, t := range c.Txns {
+			for _, ch := range t.Changes {
+				rank[ch.Lsn] = n
+				key[ch.Lsn] = keyOf(t, ch)
+				n++
+			}
+		}
+		last := map[string]int{}
+		lastLsn := map[string]uint64{}
+		reported := false
+		for _, e := range r.Log {
+			if e.K != "accept" || reported {
+				continue
+			}
+			for _, l := range e.Lsns {
+				rk, ok := rank[l]
+				if !ok {
+					continue
+				}
+				k := key[l]
+				if prev, seen := last[k]; seen && rk < prev {
+					add("C05", "sink-order-violated-for-a-partition-key", fmt.Sprintf("key %q: the change at %d was accepted by the sink after the change at %d, which PostgreSQL delivered later", k, l, lastLsn[k]))
+					reported = true
+					break
+				}
+				last[k], lastLsn[k] = rk, l
 			}
 		}
 	}
